@@ -17,6 +17,7 @@ import (
 
 	"github.com/paulmach/osm"
 	"github.com/paulmach/osm/annotate"
+	"github.com/paulmach/osm/annotate/shared"
 
 	"verif/internal/gen"
 )
@@ -50,6 +51,10 @@ type Ver struct {
 	Lon     float64 `json:"lon,omitempty"`
 	Rev     bool    `json:"rev,omitempty"` // way child: node list reversed with respect to the canonical one
 	Zone    int     `json:"z,omitempty"`   // index into Zones: the Location the times of this version are expressed in
+	// Alt (way child): 0 canonical nodes; 1 an inner node replaced (open way: ends kept; ring:
+	// one vertex replaced, winding kept); 2 open way: other end nodes; ring: starts at another
+	// vertex (winding kept); 3 open way: only the last end node is another one.
+	Alt int `json:"alt,omitempty"`
 }
 
 // Child is the whole history of one child element.
@@ -60,6 +65,7 @@ type Child struct {
 	Missing bool     `json:"missing,omitempty"` // the datasource reports "not found"
 	Empty   bool     `json:"empty,omitempty"`   // the datasource returns an empty history and a nil error
 	Fail    bool     `json:"fail,omitempty"`    // the datasource fails with an error that is not "not found"
+	Closed  bool     `json:"closed,omitempty"`  // way child: a closed ring (first node == last node)
 	// NoCommit: in a mixed-regime history this child's versions before MixSec have no Committed time.
 }
 
@@ -354,25 +360,63 @@ func (d *DS) WayHistory(_ context.Context, id osm.WayID) (osm.Ways, error) {
 		ts, com := d.h.stamps(v.Sec, v.Lag, v.Zone)
 		w := &osm.Way{ID: id, Version: v.Version, Visible: v.Visible, Timestamp: ts, Committed: com,
 			ChangesetID: osm.ChangesetID(v.CS), User: "w", UserID: 9}
-		// a short open line with annotated nodes; Rev flips it (the library derives Update.Reverse from it)
-		base := float64(id%50) / 10
-		pts := []osm.WayNode{
-			{ID: osm.NodeID(id*10 + 1), Version: 1, Lat: base, Lon: base},
-			{ID: osm.NodeID(id*10 + 2), Version: 1, Lat: base + 0.5, Lon: base + 0.25},
-			{ID: osm.NodeID(id*10 + 3), Version: 1, Lat: base + 1, Lon: base},
-		}
-		if d.h.Ring {
-			pts = d.h.ringArc(c)
-		}
-		if v.Rev {
-			pts[0], pts[2] = pts[2], pts[0]
-		}
+		pts := d.h.wayNodes(c, v)
 		if v.Visible {
 			w.Nodes = pts
 		}
 		out = append(out, w)
 	}
 	return out, nil
+}
+
+// wayNodes builds the located node list of one version of a way child. Open ways are a
+// three-node line (Rev: traversed the other way round; Alt 1: other middle node; Alt 2: other
+// end nodes); closed ways a four-vertex ring (Rev: opposite winding; Alt 1: one vertex
+// replaced; Alt 2: starts at another vertex). In Ring histories the open ways are arcs of one
+// polygon (Alt ignored).
+func (h *H) wayNodes(c *Child, v Ver) []osm.WayNode {
+	id := c.Ref
+	base := float64(id%50) / 10
+	var pts []osm.WayNode
+	switch {
+	case h.Ring && !c.Closed:
+		pts = h.ringArc(c)
+	case c.Closed:
+		pts = []osm.WayNode{
+			{ID: osm.NodeID(id*10 + 1), Version: 1, Lat: base, Lon: base},
+			{ID: osm.NodeID(id*10 + 2), Version: 1, Lat: base, Lon: base + 1},
+			{ID: osm.NodeID(id*10 + 3), Version: 1, Lat: base + 1, Lon: base + 1},
+			{ID: osm.NodeID(id*10 + 4), Version: 1, Lat: base + 1, Lon: base},
+		}
+		switch v.Alt {
+		case 1:
+			pts[2] = osm.WayNode{ID: osm.NodeID(id*10 + 7), Version: 2, Lat: base + 1.25, Lon: base + 1.5}
+		case 2:
+			pts = append(pts[1:], pts[0])
+		}
+		pts = append(pts, pts[0])
+	default:
+		pts = []osm.WayNode{
+			{ID: osm.NodeID(id*10 + 1), Version: 1, Lat: base, Lon: base},
+			{ID: osm.NodeID(id*10 + 2), Version: 1, Lat: base + 0.5, Lon: base + 0.25},
+			{ID: osm.NodeID(id*10 + 3), Version: 1, Lat: base + 1, Lon: base},
+		}
+		switch v.Alt {
+		case 1:
+			pts[1] = osm.WayNode{ID: osm.NodeID(id*10 + 7), Version: 3, Lat: base + 0.5, Lon: base - 0.25}
+		case 2:
+			pts[0] = osm.WayNode{ID: osm.NodeID(id*10 + 8), Version: 1, Lat: base - 0.5, Lon: base}
+			pts[2] = osm.WayNode{ID: osm.NodeID(id*10 + 9), Version: 1, Lat: base + 1.5, Lon: base}
+		case 3:
+			pts[2] = osm.WayNode{ID: osm.NodeID(id*10 + 9), Version: 1, Lat: base + 1.5, Lon: base}
+		}
+	}
+	if v.Rev {
+		for a, b := 0, len(pts)-1; a < b; a, b = a+1, b-1 {
+			pts[a], pts[b] = pts[b], pts[a]
+		}
+	}
+	return pts
 }
 
 // ringArc gives way child c its arc of a closed ring: the way children of the history, in
@@ -414,6 +458,64 @@ func (d *DS) RelationHistory(_ context.Context, id osm.RelationID) (osm.Relation
 	return out, nil
 }
 
+// DSC is the recording datasource in its "children" configuration: besides the plain history
+// methods it implements annotate.NodeHistoryAsChildrenDatasourcer and
+// annotate.HistoryAsChildrenDatasourcer, handing the library ready-made children built with
+// the exported constructors (shared.FromNode/FromWay/FromRelation), sorted by version, with
+// VersionIndex = position and, for ways, ReverseOfPrevious = annotate.IsReverse(way, previous).
+type DSC struct{ *DS }
+
+var _ annotate.HistoryAsChildrenDatasourcer = &DSC{}
+var _ annotate.NodeHistoryAsChildrenDatasourcer = &DSC{}
+
+// NodeHistoryAsChildren implements the children datasource interface.
+func (d *DSC) NodeHistoryAsChildren(ctx context.Context, id osm.NodeID) ([]*shared.Child, error) {
+	ns, err := d.NodeHistory(ctx, id)
+	if err != nil {
+		return nil, err
+	}
+	sort.Slice(ns, func(a, b int) bool { return ns[a].Version < ns[b].Version })
+	out := make([]*shared.Child, len(ns))
+	for i, n := range ns {
+		out[i] = shared.FromNode(n)
+		out[i].VersionIndex = i
+	}
+	return out, nil
+}
+
+// WayHistoryAsChildren implements the children datasource interface.
+func (d *DSC) WayHistoryAsChildren(ctx context.Context, id osm.WayID) ([]*shared.Child, error) {
+	ws, err := d.WayHistory(ctx, id)
+	if err != nil {
+		return nil, err
+	}
+	sort.Slice(ws, func(a, b int) bool { return ws[a].Version < ws[b].Version })
+	out := make([]*shared.Child, len(ws))
+	for i, w := range ws {
+		out[i] = shared.FromWay(w)
+		out[i].VersionIndex = i
+		if i > 0 {
+			out[i].ReverseOfPrevious = annotate.IsReverse(w, ws[i-1])
+		}
+	}
+	return out, nil
+}
+
+// RelationHistoryAsChildren implements the children datasource interface.
+func (d *DSC) RelationHistoryAsChildren(ctx context.Context, id osm.RelationID) ([]*shared.Child, error) {
+	rs, err := d.RelationHistory(ctx, id)
+	if err != nil {
+		return nil, err
+	}
+	sort.Slice(rs, func(a, b int) bool { return rs[a].Version < rs[b].Version })
+	out := make([]*shared.Child, len(rs))
+	for i, r := range rs {
+		out[i] = shared.FromRelation(r)
+		out[i].VersionIndex = i
+	}
+	return out, nil
+}
+
 // NotFound implements the datasource interface.
 func (d *DS) NotFound(err error) bool { return errors.Is(err, ErrNotFound) }
 
@@ -441,8 +543,26 @@ func (h *H) Execute() *Run {
 // ExecuteOn calls annotate.Ways or annotate.Relations on the given input (which is modified)
 // with a fresh recording datasource.
 func (h *H) ExecuteOn(ways osm.Ways, rels osm.Relations) (run *Run) {
+	return h.ExecuteOnWith(ways, rels, false)
+}
+
+// ExecuteChildren is Execute with the datasource in its "children" configuration (DSC).
+func (h *H) ExecuteChildren() *Run {
+	if h.Way {
+		return h.ExecuteOnWith(h.BuildWays(), nil, true)
+	}
+	return h.ExecuteOnWith(nil, h.BuildRelations(), true)
+}
+
+// ExecuteOnWith is ExecuteOn; asChildren selects the children configuration of the datasource.
+func (h *H) ExecuteOnWith(ways osm.Ways, rels osm.Relations, asChildren bool) (run *Run) {
 	run = &Run{Ways: ways, Relations: rels}
 	ds := h.Datasource()
+	var wds annotate.NodeHistoryDatasourcer = ds
+	var rds osm.HistoryDatasourcer = ds
+	if asChildren {
+		wds, rds = &DSC{ds}, &DSC{ds}
+	}
 	defer func() {
 		if x := recover(); x != nil {
 			run.Panic = fmt.Sprint(x)
@@ -451,9 +571,9 @@ func (h *H) ExecuteOn(ways osm.Ways, rels osm.Relations) (run *Run) {
 		run.NCalls = len(ds.Calls)
 	}()
 	if h.Way {
-		run.Err = annotate.Ways(context.Background(), run.Ways, ds, h.Options()...)
+		run.Err = annotate.Ways(context.Background(), run.Ways, wds, h.Options()...)
 	} else {
-		run.Err = annotate.Relations(context.Background(), run.Relations, ds, h.Options()...)
+		run.Err = annotate.Relations(context.Background(), run.Relations, rds, h.Options()...)
 	}
 	return run
 }
